@@ -33,7 +33,7 @@ REST_TOKENS = ['-l', '-v', '-o', 'out.x', '--outfile=zzz', '-h', '--help', '-V',
                'b c', '', '-5', '-i', '--line', '--no', '-lvx', '=', '-', '--outfile', '-u', '-b', '-p', 'x.py', '-z',
                '--unit=3', '-o=1', '-ofoo', '-.5', '--builtin', '-lq',
                # tokens other argparse conventions would treat specially (file expansion, other prefix characters)
-               '@args.txt', '@nofile', '@', '+l', '/v',
+               '@args.txt', '@nofile', '@', '+l', '+v', ':v',
                # the switches of the importable decorator (explicit_profiler): under kernprof they are program arguments
                '--line-profile', '--line_profile',
                # longer tokens that merely begin like kernprof's own -m
